@@ -29,7 +29,8 @@ SPEC = os.path.join(VERIF, "spec")
 BUILD = os.path.join(VERIF, ".build")
 WORKROOT = os.path.join(VERIF, ".work")
 OUT = os.path.join(VERIF, "out")
-EVID = os.path.join(VERIF, "evidence")
+# bin/seedtest redirects the evidence of its runs on deliberately broken trees (never a registered command)
+EVID = os.environ.get("VERIF_EVIDENCE_DIR") or os.path.join(VERIF, "evidence")
 JAR = "/opt/veriftools/tla/tla2tools.jar:/opt/veriftools/tla/CommunityModules-deps.jar"
 NCPU = os.cpu_count() or 4
 
@@ -94,7 +95,12 @@ def build_harness(race=False):
         shutil.copy(os.path.join(hdir, "go.sum"), os.path.join(BUILD, "go.alt.sum"))
         modfile = ["-modfile", alt]
         out += "-alt"
-    cmd = ["go", "build", "-tags", "verif"] + modfile + (["-race"] if race else []) + ["-o", out, "./cmd/vh"]
+    cover = []
+    if os.environ.get("VERIF_COVER") and not race:
+        # bin/coverage: statement coverage of the library reached by the harness (GOCOVERDIR must be set)
+        cover = ["-cover", "-coverpkg=github.com/ipfs/go-unixfsnode/...,verifharness/..."]
+        out += "-cover"
+    cmd = ["go", "build", "-tags", "verif"] + modfile + cover + (["-race"] if race else []) + ["-o", out, "./cmd/vh"]
     r = subprocess.run(cmd, cwd=hdir, env=GOENV, capture_output=True, text=True)
     if r.returncode != 0:
         raise Broken("harness build failed:\n" + r.stdout + r.stderr)
